@@ -16,6 +16,11 @@ def forDown {σ : Type} (hi lo : Int) (st : σ) (body : Int → σ → σ) : σ 
 def forNat {σ : Type} (lo hi : Nat) (st : σ) (body : Nat → σ → σ) : σ :=
   (List.range (hi - lo)).foldl (fun st (k : Nat) => body (lo + k) st) st
 
+/-- `for cond(st) { st = body st }`, cut off after `fuel` iterations -/
+def whileN {σ : Type} : Nat → (σ → Bool) → (σ → σ) → σ → σ
+  | 0, _, _, st => st
+  | fuel + 1, cond, body, st => if cond st then whileN fuel cond body (body st) else st
+
 /-- a counting loop that an error return can leave: `none` once an iteration has failed -/
 def forUpOpt {σ : Type} (lo hi : Int) (st : σ) (body : Int → σ → Option σ) : Option σ :=
   forUp lo hi (some st) (fun i o => match o with | none => none | some s => body i s)
